@@ -109,7 +109,7 @@ Line == /\ Ev("line") /\ phase = "running" /\ kind = "sel" /\ ~exited
               /\ AA[i].ecu = Cur.ecu /\ AA[i].apid = Cur.apid /\ AA[i].ctid = Cur.ctid
               /\ C!CanEmitSel(sel, o.sort, scr, i)
               /\ scr' = Append(scr, i)
-        /\ UNCHANGED <<case, phase, kind, AA, gen, lcs, seen, refset, cset, o, fil, exited, viol, skipped>>
+        /\ UNCHANGED <<case, phase, kind, AA, gen, lcs, seen, refset, cset, o, sel, fil, exited, viol, skipped>>
 Exit == /\ Ev("exit") /\ phase = "running" /\ kind = "sel" /\ ~exited
         /\ Cur.code = 0
         /\ exited' = TRUE
